@@ -333,6 +333,13 @@ static void run_zone(Ctx& c, vt::Rng& r, bool thorough, const std::vector<int64_
     civil_second cmax = sconv(c, kMax), cmin = sconv(c, kMin);
     for (int d : ds) { climit.push_back(cmax + d); climit.push_back(cmin - d); climit.push_back(cmax - d); climit.push_back(cmin + d); }
   }
+  // civil years far beyond the reachable range whose distance from the 21st-23rd century is a whole multiple of the
+  // largest cycle count that fits int64 seconds (the saturating shift is applied in steps of that size)
+  for (int64_t m : {2, 3, 5, 31}) {
+    const int64_t big = 730692561LL * 400 * m;
+    for (int64_t cy : {1971, 2040, 2100, 2150, 2196, 2197, 2300, 2438, 2439})
+      climit.push_back(civil_second(cy + big, 1 + (int)(cy % 12), 15, 12, 0, 0));
+  }
   // year and leap-day boundaries in a spread of years of every kind (negative, century, 400-multiples and their
   // neighbours): far from any transition, chosen by the calendar cycle alone
   for (int64_t y : {-1199, -800, -799, -401, -400, -399, -398, -101, -100, -99, -4, -1, 0, 1, 4, 100, 399, 400, 401, 1600, 1900, 2000, 2100, 2400}) {
